@@ -30,5 +30,4 @@ Theorem gen_number_gen_float_pins : forall r round bounds p,
                  0%float 0x1.19799812dea11p-40%float r round bounds p.
 Proof. reflexivity. Qed.
 
-Print Assumptions gen_number_gen_eq_model.
-Print Assumptions gen_number_gen_float_pins.
+(* Print Assumptions of the theorems above is run by harness/core.py translated_obligations (qualified names, whitelist) *)
